@@ -10,3 +10,49 @@ check("C03", "bfs",
       "Every history (up to the stated bounds) of block deliveries on two competing branches that re-create a coinbase txid, interleaved with FlushUtxoCache in all three modes, clean/unclean reopen and cache-populating queries, for three cache sizes, is executed on the real chain; after every transition the full UTXO universe, spend journals, TotalTxns and the persisted bucket are compared with an independent fold. States are deduplicated on the complete cache+disk state, so the exploration is exhaustive for the block tree and event bound.",
       "Trusted: ffldb/leveldb commit atomicity (C05), script semantics (lab uses OP_TRUE/OP_RETURN), bound: fixed 2-branch block tree, <=3 (quick) / <=4 (thorough) non-delivery events per history.",
       "DESIGN.md §4 C03")
+
+ENGINES += [
+    dict(name="vsched", path="engine/vsched", serves_properties=["C18"], kind_free_text="cooperative scheduler + stateless DFS over schedules of the real code (iterative preemption / deviation bounding, data-choice points, exact quiescence, deadlock = leak detection, replay with divergence check)"),
+    dict(name="rewrite+vsync+vtime", path="engine/rewrite", serves_properties=["C18"], kind_free_text="go/ast rewriter producing a -overlay that maps sync->vsync and makes goroutines/channel ops/selects/timers of peer.go visible to vsched; regenerated from the current tree on every run"),
+]
+
+check("C02", "bfs",
+      "explicit-state BFS over all delivery / header / invalidate / reconsider histories on every small block tree, oracle = naive most-work-valid-chain reference + agreement of all views",
+      "For every unordered rooted tree up to N blocks and every labelling with invalid blocks (sanity / acceptance / connect time), every history of block deliveries in any order (orphans, one re-delivery), header deliveries and InvalidateBlock/ReconsiderBlock calls is executed on the real BlockChain; after each transition the tip must be a most-work fully-valid delivered chain (first-active wins ties), and BestSnapshot, height<->hash lookups, MainChainHasBlock, BlockByHeight, ChainTips and the connect/disconnect notification stream must agree.",
+      "Bounds: N<=4 quick / <=5 thorough, <=1-2 invalid blocks, <=2 invalidate/reconsider events; equal work per block; orphan expiry and the 100-orphan cap outside the horizon. Known findings (InvalidateBlock/ReconsiderBlock tip choice) are listed in known_findings.json.",
+      "DESIGN.md §4 C02")
+check("C11", "enum",
+      "exhaustive enumeration of boundary grids (messages x keys x (r,s) x pubkey byte shapes, all DER strings with <=2 grammar deviations, all MuSig2 signer lists/orders/tweak chains) against an independent math/big reference",
+      "Every case runs on btcec/ecdsa/schnorr/musig2 and is compared with refec (affine big.Int secp256k1, ECDSA, BIP340, BIP327, DER grammar model) which is first bound to the shipped BIP340/BIP327/RFC6979 vectors.",
+      "Trusted: decred secp256k1 field/group arithmetic (module cache); values outside the boundary alphabets are not reached. Known finding: musig2 nonce encoding (ParseJacobian).",
+      "DESIGN.md §4 C11")
+check("C13", "enum",
+      "exhaustive small-scope enumeration (tx lists 0..33, all coinbase layouts, all scripts <=3 tokens, all coinbase-height prefixes, lock-time/sequence-lock boundary products on real chains) against a naive reference",
+      "Merkle roots through every construction path, witness commitment extraction/validation, weight, sigop cost, coinbase height extraction, finality and BIP68 sequence locks are compared with refmerkle (no btcd imports), bound first to 264 shipped blocks and tx_valid.json.",
+      "Trusted: sha256; CalcSequenceLock driven on main-chain tips of lab chains only.",
+      "DESIGN.md §4 C13")
+check("C15", "enum",
+      "exhaustive enumeration of values (all VLQ < 2^21, all amounts < 10^6 + boundaries, script classes x curve points, entry/journal shapes) and of hostile byte strings (all strings <=3 bytes, VLQ-overflow family, every truncation) against an independent codec",
+      "Encode side: bytes == reference bytes, size == length, decode(encode)=id; hostile side: value or error, never a panic, out-of-range slice or oversized allocation. Reference bound to the literal examples in the format comments and tests.",
+      "Calls predicted to allocate > 4 MiB are not executed (would OOM the harness) and are counted.",
+      "DESIGN.md §4 C15")
+check("C16", "enum",
+      "exhaustive enumeration (payload patterns x networks x address types, witness version x every program length, every edit-distance-1 string and distance-2 on the checksum, all BIP32 paths of depth<=3 over 6 boundary indices, every taproot tree shape <=6 leaves) against an independent reference",
+      "Round trips, network separation, address<->script agreement, rejection of corrupted strings (accepted only if the reference decoder accepts them), WIF, BIP32 derivation incl. Neuter commutation, taproot control blocks; refaddr is bound to the shipped BIP173/350/32/86 and taproot-ref vectors.",
+      "Edit distance 3-4 not enumerated; sha256/ripemd160 trusted.",
+      "DESIGN.md §4 C16")
+check("C18", "vsched",
+      "stateless exploration of thread schedules of the real peer code under a cooperative scheduler (all schedules with <=k deviations, deadlock/leak detection, schedule replay) + exhaustive enumeration of remote frame sequences against a reference handshake state machine + separate free-running -race pass",
+      "peer.go is compiled through an overlay (sync->vsync, goroutines/channels/selects/timers hooked) regenerated from the current tree. (a) every sequence of <=3 (quick) / <=4 (thorough) remote frames over a 17-frame alphabet, both directions; (b) QueueMessage/QueueInventory callers vs Disconnect / remote close / write errors / inbound ping / trickle tick: FIFO on the wire, completion signalled exactly once for sends queued before the disconnect request, no goroutine left blocked after WaitForDisconnect.",
+      "Atomics are not scheduling points; timers fire only when the harness says so; deviation bound 2 (quick) / 3 (thorough); data races only via the separate -race pass (sampling, reported as such).",
+      "DESIGN.md §4 C18, §3.1")
+check("C19", "enum",
+      "exhaustive enumeration of handshake configurations (roles x garbage lengths x decoys), long packet schedules across rekeys and every single-position tampering of the stream, with an independent BIP324 implementation playing the other endpoint",
+      "refbip324 (own ChaCha20/Poly1305/HKDF/ElligatorSwift over math/big) is bound to the shipped BIP324 vectors, then acts as the remote: session ids, every ciphertext byte, delivery order and contents must agree; any modification/truncation/reorder/duplication must be reported and never deliver altered plaintext.",
+      "Keys from a fixed pool; crypto/rand replaced by a seeded stream for reproducibility; thorough covers all garbage lengths 0..4095 per side.",
+      "DESIGN.md §4 C19")
+check("C20", "enum",
+      "exhaustive enumeration (all multisets <=4/5 elements x P x M x keys, all query subsets, every 2^n matched subset of n-tx blocks, all murmur3 inputs <=2/3 bytes, bloom parameter grids) against independent BIP158/BIP37 references",
+      "GCS bytes/round trips/no false negatives/batch==element-wise, BuildBasicFilter element set and BIP157 header chain (incl. the cfindex on real chains), bloom no-false-negatives and MatchTxAndUpdate semantics, merkle blocks verified by the BIP37 extraction algorithm; references bound to shipped vectors.",
+      "siphash/murmur written independently; large-N filters use fixed deterministic element lists.",
+      "DESIGN.md §4 C20")
